@@ -23,7 +23,7 @@ NATIVE_CONFIRM = False
 BOUNDS = {
     'quick': 'ABSTRACT SEGMENTS: every commit DAG on <=4 positions (any parent sets incl. octopus merges, parents listed ascending or descending), '
              'stored in one segment or split over two stacked segments at every split point: is_ancestor_pos for every pair, heads_pos for every '
-             'candidate subset, common_ancestors_pos for all pairs of lists of <=2 positions (n<=3; lists of <=1 position for n=4), all_heads_pos, AncestorsBitSet add_head/visit_until/contains '
+             'candidate subset, common_ancestors_pos for all pairs of lists of <=2 positions (n<=3; lists of <=1 position for n=4; lists of <=3 positions with repetition for n=2), all_heads_pos, AncestorsBitSet add_head/visit_until/contains '
              'for every head subset; is_ancestor_pos additionally on 5 positions and on the sparse position sets {62,63,64,65} and {1,62,..,65} '
              '(crossing the 64-bit bitset word boundary); AncestorsBitSet on {62,63,64,65}; heads_pos on 5 positions for every 3-element candidate set. '
              'REAL SEGMENTS: 2 commits with symbolic 1-byte commit ids (distinct) and change ids (may coincide), every parent list, added with add_commit_data, serialized, reloaded: '
@@ -66,6 +66,9 @@ def jobs(tier):
         if n <= (4 if q else 5):
             kmax = 1 if (q and n >= 4) else 2
             out.append(dict(name=f'common-n{n}-k{kmax}', what='common', kmax=kmax, pos=list(range(n)), segs=[n // 2], order='asc', rung=rung, weight=6 ** n, split=('enumerate', 6) if n >= 4 else None))
+    # common_ancestors_pos with longer argument lists incl. repeated positions (the same position queued three or more times on both sides)
+    out.append(dict(name='common-n2-k3', what='common', kmax=3, pos=[0, 1], segs=[1], order='asc', rung=0, weight=500, split=('enumerate', 6)))
+    if not q: out.append(dict(name='common-n3-k3', what='common', kmax=3, pos=[0, 1, 2], segs=[1], order='asc', rung=4, weight=5000, split=('enumerate', 6)))
     for k in ((4, 5) if q else (4, 5, 6)):
         sp = SPARSE[6 - k:]
         out.append(dict(name=f'anc-sparse{k}', what='anc', pos=sp, segs=[], order='asc', rung=0 if k <= 4 else k, weight=3 ** k, split=('enumerate', 6) if k >= 5 else None))
